@@ -42,11 +42,22 @@ const (
 	kHTTPOK       = 9  // fetcher declines; URL answered 200 with a profile (remote => save)
 	kHTTP500      = 10 // fetcher declines; URL answered 500
 	c16NumKinds   = 11
+	// kinds 11.. : the fetcher declines and the request goes through the REAL internal/transport
+	// object of the run (one per case, as one per pprof run) to a local server (c16_transport.go)
+	c16KTrHTTPOK      = 11 // http://plain server, 200 + profile
+	c16KTrHTTP500     = 12 // http://plain server, 500
+	c16KTrInsecureOK  = 13 // https+insecure://server with an untrusted certificate, 200 + profile
+	c16KTrUntrusted   = 14 // https://server with an untrusted certificate: TLS verification fails
+	c16KTrTrustedOK   = 15 // https://server whose certificate is in -tls_ca, 200 + profile
+	c16KTrInsecureBad = 16 // https+insecure://untrusted server, 200 + garbage body
+	c16KTrInsecure500 = 17 // https+insecure://trusted server, 500
 )
+
+func c16KindTransport(k int) bool { return k >= c16KTrHTTPOK && k <= c16KTrInsecure500 }
 
 func c16KindOK(k int) bool {
 	switch k {
-	case kFetchOK, kFetchRemote, kFetchTest, kFileOK, kHTTPOK:
+	case kFetchOK, kFetchRemote, kFetchTest, kFileOK, kHTTPOK, c16KTrHTTPOK, c16KTrInsecureOK, c16KTrTrustedOK:
 		return true
 	}
 	return false
@@ -156,6 +167,7 @@ type c16Env struct {
 	mu    sync.Mutex
 	errs  []string
 	calls map[string]int
+	byPath map[string]string // "/s3" -> address, for the sources served by the local servers
 }
 
 func (e *c16Env) Fetch(src string, duration, timeout time.Duration) (*profile.Profile, string, error) {
@@ -168,8 +180,11 @@ func (e *c16Env) Fetch(src string, duration, timeout time.Duration) (*profile.Pr
 	e.mu.Unlock()
 	g.onceA.Do(func() { close(g.arrived) })
 	<-g.release
-	defer g.onceT.Do(func() { close(g.returned) })
 	s := e.srcOf[src]
+	if c16KindTransport(s.kind) {
+		return nil, "", nil // decline; c16RT closes g.returned when the real transport has answered
+	}
+	defer g.onceT.Do(func() { close(g.returned) })
 	switch s.kind {
 	case kFetchOK:
 		return c16Profile(s, false), "", nil
@@ -231,6 +246,9 @@ func c16Addr(grp, idx int, kind int) string {
 	case kHTTPOK, kHTTP500:
 		return fmt.Sprintf("http://c16host/%s%d", g, idx)
 	}
+	if c16KindTransport(kind) {
+		return c16TrAddr(kind, fmt.Sprintf("/%s%d", g, idx))
+	}
 	return fmt.Sprintf("%s%d", g, idx)
 }
 
@@ -248,6 +266,8 @@ func c16ErrCode(msg string) string {
 		return "invalid"
 	case strings.HasPrefix(msg, "server response: 500"):
 		return "http"
+	case strings.HasPrefix(msg, "http fetch:") && strings.Contains(msg, "x509:"):
+		return "tls"
 	}
 	return "other:" + msg
 }
@@ -256,7 +276,8 @@ var c16Stalls int
 
 // c16Run executes one case against the implementation and returns the observable.
 func c16Run(cs c16Case) (obs Term) {
-	env := &c16Env{gates: map[string]*c16Gate{}, srcOf: map[string]c16Src{}, calls: map[string]int{}}
+	env := &c16Env{gates: map[string]*c16Gate{}, srcOf: map[string]c16Src{}, calls: map[string]int{}, byPath: map[string]string{}}
+	rt := c16NewRT(env, cs) // scripted answers for c16host, the run's real transport for everything else
 	addrs := [2][]string{}
 	index := map[string]c16Ev{}
 	var files []string
@@ -267,6 +288,9 @@ func c16Run(cs c16Case) (obs Term) {
 			index[a] = c16Ev{grp, i}
 			env.gates[a] = &c16Gate{arrived: make(chan struct{}), release: make(chan struct{}), returned: make(chan struct{})}
 			env.srcOf[a] = s
+			if c16KindTransport(s.kind) {
+				env.byPath[a[strings.LastIndex(a, "/"):]] = a
+			}
 			switch s.kind {
 			case kFileOK:
 				os.WriteFile(a, c16Bytes(c16Profile(s, false)), 0o644)
@@ -334,9 +358,9 @@ func c16Run(cs c16Case) (obs Term) {
 		}()
 		if cs.fetch {
 			p, err = driver.VerifC16Fetch(addrs[0], addrs[1], false,
-				&plugin.Options{Fetch: env, Sym: c16Sym{}, Obj: c16Obj{}, UI: env, HTTPTransport: env})
+				&plugin.Options{Fetch: env, Sym: c16Sym{}, Obj: c16Obj{}, UI: env, HTTPTransport: rt})
 		} else {
-			p, pb, _, _, save, err = driver.VerifC16Grab(addrs[0], addrs[1], env, c16Obj{}, env, env)
+			p, pb, _, _, save, err = driver.VerifC16Grab(addrs[0], addrs[1], env, c16Obj{}, env, rt)
 		}
 	}()
 	close(finished)
@@ -832,6 +856,7 @@ func runC16(c *Ctx) {
 		cs.order = c16Order(c.R, ns, nb, 0)
 		c.c16Emit("fetchprofiles", cs, "gen-fetchprofiles")
 	}
+	c.c16TransportStreams()
 	c.c16Flush()
 	c.Extra["controller_stalls"] = c16Stalls
 }
